@@ -10,6 +10,11 @@ use twofloat::TwoFloat;
 /// operand for the rounding functions: integer / half-integer high words combined with
 /// integer / half-integer / integer±tiny / fractional low words
 pub fn x_round(ctx: &mut Ctx) -> Dd {
+    if ctx.chance(1, 14) {
+        if let Some(d) = derived_operand(ctx, -60, 200) {
+            return d;
+        }
+    }
     if ctx.chance(1, 6) {
         ctx.label("generic");
         return dd_exp(ctx, -1022, 1023, true);
